@@ -22,6 +22,7 @@ fn main() {
             "c05" => gens::gen_c05(r),
             "c08" => gens::gen_c08(r),
             "c15" => gens::gen_c15(r),
+            "c12" => gens::gen_c12(r),
             "c10" => gens::gen_c10(r, false),
             "c10long" => gens::gen_c10(r, true),
             other => panic!("unknown generator {other}"),
